@@ -93,3 +93,6 @@ def worlds(n_neighbours, cutoffs, L=60):
 HIT_MENU_FULL = [dict(zip("abc", v)) for v in itertools.product((None, 3, 5, 7), (None, 1), (None, 1))]
 HIT_MENU_FULL = [{k: v for k, v in h.items() if v is not None} for h in HIT_MENU_FULL]
 HIT_MENU_SMALL = [{}, {"a": 3}, {"a": 5}, {"a": 7}, {"b": 1}, {"a": 7, "b": 1}, {"c": 1}]
+# a gene hit twice by the same profile: the value under the plain name is the best score, ">a"/"<a" is a second, weaker hit of "a"
+# listed after/before it (the reference reads only plain names: a profile hits a gene, and with which best score)
+HIT_MENU_DUP = [{"a": 7, ">a": 3}, {"a": 7, "<a": 3}, {"a": 7, ">a": 3, "b": 1}, {"a": 3, ">a": 3}]
